@@ -138,6 +138,7 @@ Fixpoint pp_js_p (fm : bool) (en : env) (props : list string) (ind : nat) (p : p
   | PWhile c a r => indent ind ++ "while " ++ js_cond fm en c ++ " {
 " ++ pp_js_p fm en props (S ind) a ++ indent ind ++ "}
 " ++ pp_js_p fm en props ind r
+  | PExit _ r => js_line ind "break" ++ pp_js_p fm en props ind r
   end.
 
 Fixpoint js_ok_p (en : env) (props : list string) (p : prog) : Prop :=
@@ -147,18 +148,19 @@ Fixpoint js_ok_p (en : env) (props : list string) (p : prog) : Prop :=
   | PIf c a r => js_ok en c /\ js_ok_p en props a /\ js_ok_p en props r
   | PIfE c a eb r => js_ok en c /\ eb <> PNil /\ js_ok_p en props a /\ js_ok_p en props eb /\ js_ok_p en props r
   | PWhile c a r => js_ok en c /\ js_ok_p en props a /\ js_ok_p en props r
+  | PExit _ r => js_ok_p en props r
   end.
 
 Definition js_of (sts : list node) (ind : nat) (fm : bool) : string := concat_all (map (fun st => gen_js st ind fm) sts).
 
 Lemma fins_ne en props pc p : p <> PNil -> fins (items en props pc p) <> [].
-Proof. destruct p; [congruence | discriminate | discriminate | discriminate | discriminate]. Qed.
+Proof. destruct p; [congruence | discriminate | discriminate | discriminate | discriminate | discriminate]. Qed.
 
 Theorem nest_js fm en props : forall p, js_ok_p en props p -> forall pc ind,
   js_of (rebuilt en props pc p) ind fm = pp_js_p fm en props ind p.
 Proof.
   unfold rebuilt, js_of.
-  induction p as [|s r IH|c a IHa r IHr|c a IHa eb IHe r IHr|c a IHa r IHr]; intros Hok pc ind.
+  induction p as [|s r IH|c a IHa r IHr|c a IHa eb IHe r IHr|c a IHa r IHr|xoff r IH]; intros Hok pc ind.
   - reflexivity.
   - destruct Hok as [Hs Hr]. cbn [items fins fin_i map concat_all pp_js_p]. rewrite (js_stmt_line fm en props s Hs pc ind), (IH Hr). reflexivity.
   - destruct Hok as (Hc & Ha & Hr). cbn [items fins map concat_all pp_js_p]. rewrite fin_if. cbn [gen_js].
@@ -174,5 +176,6 @@ Proof.
     rewrite (gen_js_is_pp fm en c Hc pc 0%nat), (wrap_paren_reify fm en pc c Hc). rewrite (IHa Ha), (IHr Hr).
     change (String.eqb "while" "while") with true. cbn iota.
     repeat rewrite <- sappend_assoc. rewrite ends_with_brace. repeat rewrite sappend_assoc. reflexivity.
+  - cbn [items fins fin_i map concat_all pp_js_p js_ok_p] in *. rewrite (IH Hok). reflexivity.
 Qed.
 Print Assumptions nest_js.
